@@ -47,7 +47,7 @@ R = types.SimpleNamespace(
     close=os.close, rename=os.rename, replace=os.replace, unlink=os.unlink,
     remove=os.remove, access=os.access, utime=os.utime, rmdir=os.rmdir,
     uname=os.uname, bopen=builtins.open, mkstemp=tempfile.mkstemp,
-    pycompile=py_compile.compile, copy=shutil.copy, copyfile=shutil.copyfile,
+    pycompile=py_compile.compile, copy=shutil.copy, copyfile=shutil.copyfile, copy2=shutil.copy2,
     rmtree=shutil.rmtree,
     time=time.time, asctime=time.asctime, gmtime=time.gmtime,
     localtime=time.localtime, strftime=time.strftime, ctime=time.ctime,
@@ -87,6 +87,9 @@ SITE_ACTIONS = {
     'os.utime': [('errno', 'EPERM')],
     'open': [('errno', 'EACCES'), ('errno', 'ENOENT'), ('errno', 'EMFILE'), ('errno', 'EIO'), ('vanish', None)],
     'file.read': [('errno', 'EIO')],
+    # code that writes through file objects (open(), os.fdopen(), NamedTemporaryFile) instead of os.write()/os.close()
+    'file.write': [('errno', 'EIO'), ('errno', 'ENOSPC'), ('errno', 'EDQUOT')],
+    'file.close': [('errno', 'EIO'), ('errno', 'ENOSPC')],
     'py_compile': [('exc', 'PyCompileError'), ('exc', 'SyntaxError'),
                    ('exc', 'OSError'), ('exc', 'RuntimeError')],
     'shutil.copy': [('errno', 'EACCES'), ('errno', 'ENOSPC'), ('errno', 'EIO')],
@@ -689,15 +692,54 @@ class FileProxy(object):
         return self._pt('file.write', lambda: self._f.write(data), mutating=True)
 
     def close(self):
-        r = self._f.close()
-        if self._writing and _state.world is self._w:
-            self._w.stamp(self._p)
-        return r
+        w = self._w
+        fdn = self.__dict__.get('_fd')
+
+        def real_close():
+            r_ = self._f.close()
+            if fdn is not None:
+                w.fds.pop(fdn, None)
+            if self._writing and _state.world is w:
+                w.stamp(self._p)
+            return r_
+        if not self._writing or self._f.closed or _state.world is not w or _depth():
+            return real_close()
+        try:
+            return w.syscall('file.close', self._p, real_close, mutating=True)
+        except OSError:
+            # an injected failure of close(): the descriptor is released all the same, and (as with a deferred write
+            # error) part of what was written never reached the file
+            if not self._f.closed:
+                try:
+                    self._f.flush()
+                except (OSError, ValueError):
+                    pass
+                try:
+                    size = os.fstat(self._f.fileno()).st_size
+                    if size > 0:
+                        os.ftruncate(self._f.fileno(), size // 2)
+                except (OSError, ValueError):
+                    pass
+                try:
+                    self._f.close()
+                except OSError:
+                    pass
+                if fdn is not None:
+                    w.fds.pop(fdn, None)
+            raise
 
 
 def _w_bopen(file, mode='r', *a, **k):
     if isinstance(file, int):
-        return R.bopen(file, mode, *a, **k)
+        w0 = _state.world
+        if w0 is None or file not in w0.fds:
+            return R.bopen(file, mode, *a, **k)
+        # a file object around a descriptor opened inside the world (os.fdopen, open(fd, ...)): its writes and its close
+        # are fault points like os.write / os.close
+        fp_ = FileProxy(w0, R.bopen(file, mode, *a, **k), os.path.join(w0.root, w0.fds[file]), any(c in mode for c in 'wax+'))
+        if k.get('closefd', True):
+            fp_.__dict__['_fd'] = file
+        return fp_
     w = _live(file)
     if w is None:
         return R.bopen(file, mode, *a, **k)
@@ -726,6 +768,31 @@ def _w_mkstemp(suffix=None, prefix=None, dir=None, text=False):
     return w.syscall('mkstemp', dir, thunk, mutating=True)
 
 
+class _CandidateNames(object):
+    """tempfile's name sequence: deterministic ('simtmp<n>' from the world's counter) while a world is active, so that
+    NamedTemporaryFile / mkdtemp / TemporaryDirectory used by the code under test do not make runs differ"""
+
+    def __init__(self, real):
+        self._real = real
+
+    def __iter__(self):
+        return self
+
+    def __next__(self):
+        w = _state.world
+        if w is None:
+            return next(self._real)
+        w.tmpn += 1          # (also when called from inside an interposed open(): NamedTemporaryFile draws its name there)
+        return 'simtmp%04d' % w.tmpn
+
+
+_real_candidate_names = tempfile._get_candidate_names
+
+
+def _w_candidate_names():
+    return _CandidateNames(_real_candidate_names())
+
+
 def _w_pycompile(file, *a, **k):
     w = _live(file)
     if w is None:
@@ -746,6 +813,29 @@ def _w_copy(src, dst, *a, **k):
         w.stamp(target)
         return r
     return w.syscall('shutil.copy', dst, thunk, mutating=True, detail=w.rel(src))
+
+
+def _mk_copy(realname):
+    def wrapper(src, dst, *a, **k):
+        real = getattr(R, realname)
+        w = _live(dst) or _live(src)
+        if w is None:
+            return real(src, dst, *a, **k)
+
+        def thunk():
+            r = real(src, dst, *a, **k)
+            target = dst
+            if os.path.isdir(dst):
+                target = os.path.join(dst, os.path.basename(src))
+            if realname != 'copy2':
+                w.stamp(target)
+            return r
+        return w.syscall('shutil.copy', dst, thunk, mutating=True, detail=w.rel(src))
+    return wrapper
+
+
+_w_copy2 = _mk_copy('copy2')
+_w_copyfile = _mk_copy('copyfile')
 
 
 # ---- time / identity ------------------------------------------------------
@@ -830,6 +920,9 @@ def install():
     builtins.open = _w_bopen
     io.open = _w_bopen
     tempfile.mkstemp = _w_mkstemp
+    tempfile._get_candidate_names = _w_candidate_names
+    shutil.copy2 = _w_copy2
+    shutil.copyfile = _w_copyfile
     py_compile.compile = _w_pycompile
     shutil.copy = _w_copy
     time.time = _w_time
